@@ -19,19 +19,23 @@ CONSTANTS Shapes,      \* set of <<nx, ny, nz>>
           Tilings,     \* set of <<mx, my, mz>>
           MaxT,        \* full steps
           Variant,
-          Dense        \* also run the dense (every entry non-zero, complex) initial state
+          Dense,       \* also run the dense (every entry non-zero, complex) initial state
+          Basis,       \* "all": every unit basis state of E and H; "origin": only those at cell (0,0,0)
+          Singles      \* "all" | "first" | "none": which single-entry material perturbations are enumerated
 
 VARIABLES N, M, phi, th, mat, init, Es, Hs, Eb, Hb, pc, t
 vars == << N, M, phi, th, mat, init, Es, Hs, Eb, Hb, pc, t >>
 
 \* an axis with one cell and no tiling carries no information: its phase is fixed to 1
 PhaseChoices(n, m) == IF n = 1 /\ m = 1 THEN { One } ELSE Units
-\* material families: uniform, checkerboard, one component of one cell doubled (every position; lattices of
-\* at most 3 cells only)
+\* material families: uniform, checkerboard, one component of one cell doubled
 Checker(i, n) == 1 + ((Coord(i, n, 1) + Coord(i, n, 2) + Coord(i, n, 3)) % 2)
 Mats(n) == { [ i \in 1..Size(n) |-> 1 ] } \cup { [ i \in 1..Size(n) |-> Checker(i, n) ] }
-              \cup (IF Cells(n) <= 3 THEN { [ i \in 1..Size(n) |-> IF i = k THEN 2 ELSE 1 ] : k \in 1..Size(n) } ELSE {})
-Inits(n) == (IF Dense THEN { << "dense", 0 >> } ELSE {}) \cup { << f, k >> : f \in {"E", "H"}, k \in 1..Size(n) }
+              \cup { [ i \in 1..Size(n) |-> IF i = k THEN 2 ELSE 1 ] :
+                         k \in IF Singles = "all" THEN 1..Size(n) ELSE IF Singles = "first" THEN {1} ELSE {} }
+Inits(n) == (IF Dense THEN { << "dense", 0 >> } ELSE {})
+            \cup { << f, k >> : f \in {"E", "H"},
+                                k \in { k \in 1..Size(n) : Basis = "all" \/ (k - 1) % Cells(n) = 0 } }
 DenseVal(i, n, s) == << 1 + Comp(i, n) + 2 * Coord(i, n, 1) + 3 * Coord(i, n, 2) + Coord(i, n, 3) + s,
                         Coord(i, n, 1) - Comp(i, n) + 2 * s - Coord(i, n, 3) >>
 Field0(n, ini, f) ==
@@ -91,6 +95,8 @@ ShapesT  == { <<2,1,1>>, <<3,1,1>>, <<1,2,1>>, <<1,3,1>>, <<1,1,2>>, <<1,1,3>>, 
               <<1,2,2>>, <<2,2,2>> }
 TilingsT == { <<2,1,1>>, <<3,1,1>>, <<1,2,1>>, <<1,3,1>>, <<1,1,2>>, <<1,1,3>>, <<2,2,1>>, <<2,1,2>>, <<1,2,2>>,
               <<3,2,1>>, <<2,1,3>> }
-ShapesN  == { <<2,1,1>>, <<3,1,1>>, <<1,2,1>> }
-TilingsN == { <<2,1,1>>, <<3,1,1>>, <<1,2,1>> }
+Shapes2  == { <<2,2,1>> }
+Tilings2 == { <<2,2,1>> }
+ShapesN  == { <<2,1,1>>, <<3,1,1>> }
+TilingsN == { <<2,1,1>> }
 =============================================================================
